@@ -20,3 +20,7 @@ import SpoxModel.Props.C05
 #print axioms C05.eager_agrees_canonical
 #print axioms C05.supplemented_rejects_more
 #print axioms C05.kind_error_iff
+#print axioms C05.construct_history_free
+#print axioms C05.construct_history_free_at
+#print axioms C05.memo_sound
+#print axioms C05.memo_without_output_count_counterexample
